@@ -1,7 +1,8 @@
-from specs.common import run, ASSUME_COMMON
+from specs.common import run, memcheck, ASSUME_COMMON
 
 SPEC = {
-    "runs": [run("e1-model", "c07_histogram", "asan", 20000, 1500000, need_lib=True)],
+    "runs": [run("e1-model", "c07_histogram", "asan", 20000, 1500000, need_lib=True),
+             memcheck("c07_histogram", 1000, 50000)],
     "floors": {
         "quick": {"cases_value_eq_boundary": 2500, "cases_all_zero": 800, "cases_empty_bounds_minmax": 800,
                   "merge_splits_k_ge3": 4000, "points_meter-delta": 15000, "points_meter-cumulative": 15000,
